@@ -297,7 +297,7 @@ def generate(rng, idx, tier, variant):
         'container': {'add_variable': 3, 'setattr': 5, 'setitem': 3, 'setitem_label': 2, 'setitem_slice': 2, 'set_pos': 2, 'replace_values': 2, 'set_values': 2, 'add_attribute': 1, 'set_attr_plain': 2, 'set_strict': 1, 'get': 2, 'spawn': 0.5, 'reindex': 0.3},
         'labels': {'add_variable': 1, 'setattr': 1, 'setitem_label': 6, 'setitem_slice': 6, 'set_pos': 2, 'get': 4, 'setitem': 1, 'reindex': 1.5, 'reuse_key': 3, 'spawn': 0.5},
         'copies': {'mutate_any': 5, 'add_variable': 2, 'setattr': 3, 'setitem_label': 1, 'setitem_slice': 1, 'set_pos': 3, 'replace_values': 1, 'set_values': 1, 'add_attribute': 1, 'set_attr_plain': 2, 'set_strict': 1, 'spawn': 5, 'mutate_list': 5, 'solve': 2, 'sub_poke': 2, 'reindex': 0.5},
-        'reindex': {'mutate_any': 2, 'add_attribute': 2, 'add_variable': 3, 'setattr': 3, 'set_pos': 2, 'setitem_slice': 1, 'get': 1, 'reuse_key': 1, 'reindex': 6, 'solve': 2, 'set_strict': 1, 'spawn': 0.5},
+        'reindex': {'mutate_any': 2, 'add_attribute': 2, 'add_variable': 3, 'setattr': 3, 'set_pos': 2, 'setitem_slice': 1, 'get': 1, 'reuse_key': 1, 'reindex': 6, 'solve': 2, 'set_strict': 1, 'spawn': 0.5, 'set_attr_plain': 1.5},
     }[variant]
     kinds, weights = zip(*sorted(W.items()))
     for _ in range(n_ops):
@@ -388,7 +388,9 @@ def generate(rng, idx, tier, variant):
             ops.append({'op': 'add_attribute', 'obj': p, 'name': nm_, 'v': rng.randrange(100), 'shape': rng.choice(['int', 'int', 'list', 'dict', 'ndarray', 'tuple-of-list', 'tuple-of-ndarray', 'nested'])})
         elif kind == 'set_attr_plain':
             r = rng.random()
-            if r < 0.4 and names:
+            if variant == 'reindex' and r < 0.6:
+                nm = rng.choice(['lags', 'leads'])  # instance-level settings, to be carried over
+            elif r < 0.4 and names:
                 nm = pick()[0]
                 nm = rng.choice([nm + 'x', nm.lower() + '_', nm[:-1] + 'Q' if len(nm) > 1 else nm + 'q'])  # near miss of a variable
             elif r < 0.48 and names:
@@ -1164,17 +1166,19 @@ def execute(schedule, ctx):
             storage_key = nm.startswith('_') and nm[1:] in d['index']
             if storage_key:
                 clsattr = True  # handled like a class attribute name: only ever tried under strict
-            if nm in d['index'] or isinstance(getattr(type(x), nm, None), property) or (clsattr and not d['_strict']) or (nm in d and not storage_key and nm not in ('engine', 'lags', 'leads')):
+            setting = nm in ('engine', 'lags', 'leads') and 'names' in d and hasattr(x, nm)  # every model has these, however they are stored
+            if nm in d['index'] or ((isinstance(getattr(type(x), nm, None), property) or (clsattr and not d['_strict'])) and not setting) or (nm in d and not storage_key and nm not in ('engine', 'lags', 'leads')):
                 # (without strict, assigning over a method would only break the harness's own later calls)
                 outcome = 'skipped'
             else:
                 if clsattr:
                     ctx.probe('strict-vs-class-attribute-name')
-                exists = nm in d['_attributes'] or (nm in ('engine', 'lags', 'leads') and nm in d and 'names' in d)  # every model has these
+                exists = nm in d['_attributes'] or setting
                 strict = bool(d['_strict'])
                 newval = op['v']
                 if nm in ('lags', 'leads') and exists:
-                    newval = d[nm]  # re-assign the current value (the history should stay solvable)
+                    newval = op['v'] % 4  # an instance-level setting that need not be the class's LAGS / LEADS
+                    ctx.probe('instance-level-lags/leads-' + ('changed' if newval != getattr(x, nm) else 'same'))
                 elif nm == 'engine':
                     newval = 'python' if exists else op['v']
                 if nm in ('engine', 'lags', 'leads') and not exists:
@@ -1720,6 +1724,9 @@ def do_reindex(fsic, parties, party, op, ctx, before_obs, universe_spec, spec):
     a, b = O.obs(x), O.obs(y)
     for key in ('strict', 'attributes', 'attrs', 'class'):
         ctx.check('C12', f'{sig}/carried-over/{key}', a[key] == b[key], {'paths': O.diff(a[key], b[key])[:4]})
+    for key in ('lags', 'leads'):
+        if hasattr(x, key):
+            ctx.check('C12', f'{sig}/carried-over/{key}', getattr(y, key, None) == getattr(x, key), {'before': canon(getattr(x, key)), 'after': canon(getattr(y, key, None))})
     if len(parties) < MAXP:
         q = Party(y, new_labels, None, party.fam, universe=True)
         q.origin = 'reindexed'
